@@ -5,12 +5,13 @@
 (* is reported (MISMATCH line) and validation continues with the state      *)
 (* advanced from what the implementation really did.                        *)
 (***************************************************************************)
-EXTENDS Cert, TLC, Json, IOUtils
+EXTENDS Cert, Names, TLC, Json, IOUtils
 
 Rec == ndJsonDeserialize(IOEnv.TRACE)
 
-VARIABLES l, nmis
-tvars == <<l, nmis>>
+VARIABLES l, nmis,
+          names      \* C20: handle -> distinguished name as the specification tracks it
+tvars == <<l, nmis, names>>
 
 ReqCommon(ev) == { <<"C10.no_panic", ev.out # "Panic">>, <<"C10.no_timeout", ev.out # "Timeout">> }
 
@@ -29,28 +30,56 @@ ReqCertEv(ev) ==
        \cup { <<"C01.fail_yields_err_and_no_artefact", ~ev.args.signerFails>> }
   ELSE { <<"C02.issued_when_encodable", ~CertMustSucceed(ev)>> }
 
+(* ---- C20: the distinguished-name container, judged against the specification's own state ---- *)
+NameOf(h) == IF h \in DOMAIN names THEN names[h] ELSE <<>>
+
+ReqDnEv(ev) ==
+  IF ev.out # "Ok" THEN { <<"C20.operation_total", FALSE>> }
+  ELSE CASE ev.op = "DnPush" ->
+              { <<"C20.push_result_eq_model", ev.obs.iter = DnPush(NameOf(ev.args.h), ev.args.e)>>,
+                <<"C20.lookup_agrees_with_enumeration", ev.obs.get = DnGet(ev.obs.iter, ev.args.e.ty)>>,
+                <<"C20.each_type_once", NoDuplicateType(ev.obs.iter)>> }
+         [] ev.op = "DnRemove" ->
+              { <<"C20.remove_result_eq_model", ev.obs.iter = DnRemove(NameOf(ev.args.h), ev.args.ty)>>,
+                <<"C20.remove_reports_presence", ev.obs.removed = HasTy(NameOf(ev.args.h), ev.args.ty)>>,
+                <<"C20.lookup_agrees_with_enumeration", ev.obs.get = DnGet(ev.obs.iter, ev.args.ty)>>,
+                <<"C20.each_type_once", NoDuplicateType(ev.obs.iter)>> }
+         [] ev.op = "DnEq" ->
+              { <<"C20.equality_iff_same_enumeration", ev.obs.eq = (NameOf(ev.args.h1) = NameOf(ev.args.h2))>>,
+                <<"C20.equality_symmetric", ev.obs.eq = ev.obs.eqRev>> }
+         [] ev.op = "DnEncode" ->
+              { <<"C20.encoded_order_eq_enumeration", ev.obs.subject = Encoded(NameOf(ev.args.h))>> }
+         [] OTHER -> {}
+
+NamesNext(ev) ==
+  CASE ev.op = "Reset" -> <<>>
+    [] ev.op \in {"DnPush", "DnRemove"} /\ ev.out = "Ok" -> (ev.args.h :> ev.obs.iter) @@ names
+    [] OTHER -> names
+
 ReqOf(ev) ==
   ReqCommon(ev) \cup
   (CASE ev.op = "Cert" -> ReqCertEv(ev)
+     [] ev.op \in {"DnPush", "DnRemove", "DnEq", "DnEncode"} -> ReqDnEv(ev)
      [] OTHER -> {})
 
 Bad(ev) == {cl[1] : cl \in {x \in ReqOf(ev) : ~x[2]}}
 
 Report(ev, bad) == \A cl \in bad : PrintT("MISMATCH|" \o ToString(ev.i) \o "|" \o cl \o "|" \o ev.case)
 
-TraceInit == l = 1 /\ nmis = 0
+TraceInit == l = 1 /\ nmis = 0 /\ names = <<>>
 
 Step == /\ l <= Len(Rec)
         /\ LET ev == Rec[l]
                bad == Bad(ev)
            IN /\ Report(ev, bad)
               /\ nmis' = nmis + Cardinality(bad)
+              /\ names' = NamesNext(ev)
         /\ l' = l + 1
 
 Done == /\ l = Len(Rec) + 1
         /\ PrintT("FINAL|" \o ToString(Len(Rec)) \o "|" \o ToString(nmis))
         /\ l' = l + 1
-        /\ UNCHANGED nmis
+        /\ UNCHANGED <<nmis, names>>
 
 TraceNext == Step \/ Done
 TraceSpec == TraceInit /\ [][TraceNext]_tvars
